@@ -370,6 +370,11 @@ def run(tier, seed):
         if r.violated != want:
             raise common.MachineryError("canary %s: expected %s to be violated, got %r" % (cfg, want, r.violated))
         run.extra.setdefault("canaries", []).append({"module": "FeatDir", "variant": cfg, "refuted_by": r.violated})
+    # the start-up of seeded change C10-r10-mut1 (manifest truncated and printed back unflushed) as a model variant: refuted
+    r = common.tlc("FeatDirTidy", "FeatDirTidy.cfg", workers=4, timeout=300)
+    if r.violated != "C10_ManifestOnlyGrows":
+        raise common.MachineryError("canary FeatDirTidy: expected C10_ManifestOnlyGrows to be violated, got %r" % (r.violated,))
+    run.extra.setdefault("canaries", []).append({"module": "FeatDirTidy", "variant": "manifest re-written unflushed at start-up", "refuted_by": r.violated})
     # unbounded: FeatDirAbs.tla carries a TLAPS proof (any N, any number of crashes) of the set-level abstraction;
     # TLC checks that the sequence-level FeatDir.tla refines it, and that the pre-repair seed rule does not
     r = common.tlc("FeatDirRefine", "FeatDir_refines.cfg", workers=4, timeout=600)
@@ -381,7 +386,8 @@ def run(tier, seed):
         raise common.MachineryError("canary: FeatDir with SeedRule=position still refines FeatDirAbs")
     run.extra.setdefault("canaries", []).append({"module": "FeatDirRefine", "variant": "SeedRule=position", "refuted_by": r.violated})
     verdict, detail = common.tlaps("FeatDirAbs", timeout=600)
-    run.extra["tlaps"] = {"module": "FeatDirAbs", "theorems": ["Safety: Spec => [](ManifestOnlyGood /\\ ResumeEqualsUninterrupted)", "Spec => NoRecompute"],
+    run.extra["tlaps"] = {"module": "FeatDirAbs", "theorems": ["Safety: Spec => [](ManifestOnlyGood /\\ ResumeEqualsUninterrupted)", "Spec => NoRecompute",
+                                                                "Spec => ManifestOnlyGrows /\\ ListedFileStays"],
                           "result": verdict, "obligations_or_detail": detail}
     if verdict == "failed":
         raise common.MachineryError("the TLAPS proof of FeatDirAbs no longer checks: %s" % detail)
